@@ -64,7 +64,7 @@ def run(F, R):
     if _lf and 'can_pop' in _by:
         _c3.e9_can_pop(F, R, M, _by['can_pop'][0], _lf, rule='K13')
     # K14: a blocking request behind an unconsumed non-blocking completion pops its own token (C03.E8)
-    _c3.e8_helper_token(F, R, M, roles, rule='K14')
+    guard(R, 'K14', 'helper-token', lambda: _c3.e8_helper_token(F, R, M, roles, rule='K14'))
     # K10: with several requests outstanding a further request is refused when the descriptors it needs are not free -
     # otherwise it overwrites the header / data / status descriptors of a request in flight (capacity table, C03.E3)
     if _lf and 'add' in _by:
